@@ -237,9 +237,18 @@ def run(ctx):
             reqs.append("pipeline-info %d %s %s %s %s %s %s" % (
                 nscales, ty or "-", enc or "-", fr.get("type", "-"), fr["data_type"], fs0.get("encoding", "-"),
                 core.ilist(blk) if blk else "-"))
-            meta.append((desc, "%s %s %s" % (infoA["type"], infoA["data_type"], " ".join(
+            from neuroglancer_scripts import chunk_encoding as _ce
+
+            def _codec(sc_):
+                try:
+                    return {"RawChunkEncoder": "raw", "CompressedSegmentationEncoder": "compressed_segmentation",
+                            "JpegChunkEncoder": "jpeg"}.get(type(_ce.get_encoder(infoA, sc_)).__name__, "?")
+                except _ce.InvalidInfoError:
+                    return "InvalidInfoError"
+            meta.append((desc, "%s %s %s | %s" % (infoA["type"], infoA["data_type"], " ".join(
                 "%s:%s" % (s.get("encoding", "-"), ".".join(map(str, s["compressed_segmentation_block_size"]))
-                           if "compressed_segmentation_block_size" in s else "-") for s in infoA["scales"]))))
+                           if "compressed_segmentation_block_size" in s else "-") for s in infoA["scales"]),
+                " ".join(_codec(s) for s in infoA["scales"]))))
             # model: the documented sequence's info and the downscaling method each program resolves
             from neuroglancer_scripts import downscaling as _ds
             _names = {"AveragingDownscaler": "average", "MajorityDownscaler": "majority", "StridingDownscaler": "stride"}
